@@ -14,6 +14,7 @@ C10.e     splitting joint frequencies: complementary index sets; the last-n spli
 from __future__ import annotations
 
 import ast
+import itertools
 from typing import Dict, List, Optional, Set
 
 import sympy as sp
@@ -39,6 +40,7 @@ def run(idx: Index, rep: Report, tier: str):
     check_probability_flow(idx, rep)
     check_collapse(idx, rep)
     check_control_loop_clone(idx, rep)
+    check_nested_control_replay(idx, rep)
     check_frequency_split(idx, rep)
 
 
@@ -321,3 +323,94 @@ def check_control_loop_clone(idx: Index, rep: Report):
 def check_frequency_split(idx: Index, rep: Report):
     from .C18 import check_post_selection_functions
     check_post_selection_functions(idx, rep, "K9.frequency-split")
+
+
+# ---------------------------------------------------------------------------------------------------
+# nested classical control: the bookkeeping loop folded against a direct recursive reading of the circuit
+class _CircM:
+    """stand-in for a linq Circuit in the control-flow bookkeeping: a gate list, `+`, iteration, gate counts, copy()"""
+    _sa_model = True
+
+    def __init__(self, gates=None, n_qubits=None, **_kw):
+        self._gates = list(gates or [])
+        self.width = n_qubits if n_qubits is not None else 1 + max([max(g.fields["target"]) for g in self._gates] or [-1])
+        self.size = len(self._gates)
+        self.counts = {}
+        for g in self._gates:
+            self.counts[g.fields["name"]] = self.counts.get(g.fields["name"], 0) + 1
+
+    def __add__(self, o):
+        return _CircM(self._gates + o._gates, n_qubits=max(self.width, o.width))
+
+    def __iter__(self):
+        return iter(self._gates)
+
+    def copy(self):
+        return _CircM(self._gates, n_qubits=self.width)
+
+    def finalize_cmeasure_control(self):
+        return None
+
+
+def _replay(gates, outcomes: List[str], out: List[tuple]):
+    """what a circuit with (nested) dictionary controls means: gates run in order; a measurement takes the next outcome; a controlled
+    measurement then runs the gate list its dictionary selects for that outcome, in place, before anything that follows it"""
+    for g in gates:
+        nm = g.fields["name"]
+        if nm == "MEASURE":
+            out.append(("MEASURE", tuple(g.fields["target"]), outcomes.pop(0)))
+        elif nm == "CMEASURE":
+            m = outcomes.pop(0)
+            out.append(("CMEASURE", tuple(g.fields["target"]), m))
+            _replay(g.fields["parameter"][m], outcomes, out)
+        else:
+            out.append((nm, tuple(g.fields["target"]), g.fields["parameter"]))
+
+
+def check_nested_control_replay(idx: Index, rep: Report):
+    rule = "K9.nested-control-replay"
+    from ..consteval import Folder, Raised, Undecidable, make_gate
+    from ..rules.circuitsem import make_folder
+    f = idx.function(f"{CIRCUIT}::generate_applied_gates")
+
+    def L(k):
+        return make_gate(["RZ", [0]], {"parameter": float(k)})
+
+    def M(q):
+        return make_gate(["MEASURE", [q]], {})
+
+    def CM(q, d):
+        return make_gate(["CMEASURE", [q]], {"parameter": d})
+    inner = {"0": [], "1": [L(7), M(3), L(8)]}
+    outer = {"0": [L(4)], "1": [L(5), CM(1, inner), L(6)]}
+    c1 = [L(1), CM(0, outer), L(2), M(2), L(3)]
+    a2 = {"0": [L(17)], "1": [M(3), M(3), L(18)]}
+    aa = {"0": [L(13), M(2)], "1": [M(2), L(14)]}
+    bb = {"1": [CM(2, a2), L(15)], "0": [L(16)]}
+    c2 = [CM(0, aa), L(11), CM(1, bb), L(12)]
+    dd = {"0": [CM(1, {"0": [L(21)], "1": [CM(2, {"0": [], "1": [L(22)]}), L(23)]}), L(24)], "1": []}
+    c3 = [CM(0, dd), M(1), CM(2, {"0": [L(25)], "1": [L(26)]}), M(3), L(27)]
+    n = 0
+    for label, gates in (("tail after a nested measurement, later outer measurement", c1), ("two controls, each nested", c2), ("three levels, tails at two levels", c3)):
+        bad = []
+        for bits in itertools.product("01", repeat=7):
+            want: List[tuple] = []
+            _replay(gates, list(bits), want)
+            fo = make_folder(idx, CIRCUIT, ctors={"Circuit": lambda a, k: _CircM(*a, **k)})
+            try:
+                got = fo.run_function(f.node, {"source_circuit": _CircM(gates, n_qubits=4), "desired_meas_result": "".join(bits)})
+            except Undecidable as e:
+                raise AnalysisError(f"generate_applied_gates not foldable: {e}")
+            except Raised as e:
+                bad.append(("".join(bits), f"raises {e.exc_type}"))
+                continue
+            sig = [(g.fields["name"], tuple(g.fields["target"]) if isinstance(g.fields["target"], (list, tuple)) else (g.fields["target"],), g.fields["parameter"]) for g in got]
+            if sig != want:
+                k = next((i for i, (x, y) in enumerate(zip(sig, want)) if x != y), min(len(sig), len(want)))
+                bad.append(("".join(bits), f"gate {k}: {sig[k] if k < len(sig) else 'missing'} instead of {want[k] if k < len(want) else 'nothing'}"))
+            n += 1
+        rep.decide(not bad, rule, f, f.node, text=f"{label}: all 128 outcome strings",
+                   what="the gates applied for an outcome string are exactly those the nested dictionary controls select, each control's gates running in place "
+                        "(its tail right after its own nested measurements, before anything that follows the control)",
+                   reason=f"{len(bad)} outcome string(s) replay differently, e.g. outcomes {bad[0][0]}: {bad[0][1]}" if bad else "")
+    rep.floor("nested-control replays folded", n, 300)
